@@ -106,6 +106,15 @@ def interpColumns (mode : Nat) (cols : List Knots) (fl fr : Fill) (ts : List Rat
     Option (List (List XVal)) :=
   cols.mapM (fun ks => interpArray mode ks fl fr ts)
 
+/-- a result as an optional value (`none` = the exception) -/
+def Out.toOption : Out → Option XVal
+  | .val v => some v
+  | .raise => none
+
+/-- 2-D values, scalar query (F20): one value per column, the scalar path applied to every column -/
+def interpColumnsScalar (mode : Nat) (cols : List Knots) (fl fr : Fill) (t : Rat) : Option (List XVal) :=
+  cols.mapM (fun ks => (interpScalar mode ks fl fr t).toOption)
+
 /-- symbolic interpolant (`ca.interp1d`, non-equidistant): clamps to the end values -/
 def interpSym (mode : Nat) (ks : Knots) (t : Rat) : Out :=
   interpCore mode ks (some (XVal.fin (firstVal ks))) (some (XVal.fin (lastVal ks))) t
